@@ -3,7 +3,7 @@
    the correspondence run, not verified); schema conformance of all fields is an oracle. *)
 From Coq Require Import Lia Permutation Sorted.
 From RM Require Import Gen.C15Fmt.
-From RM Require Import C15.Model C15.Schema C15.Widths C15.Utf8 C15.Pretty C15.Proofs C15.Proofs2 C15.Proofs3 C15.Proofs4 C15.Proofs5 C15.Proofs6 C15.Proofs7 C15.Scalar C15.Proofs8 C15.Proofs9 C15.Regs C15.Proofs10 C15.Consistent C15.Proofs11 C15.Proofs12 C15.Proofs13.
+From RM Require Import C15.Model C15.Schema C15.Widths C15.Utf8 C15.Pretty C15.Proofs C15.Proofs2 C15.Proofs3 C15.Proofs4 C15.Proofs5 C15.Proofs6 C15.Proofs7 C15.Scalar C15.Proofs8 C15.Proofs9 C15.Regs C15.Proofs10 C15.Consistent C15.Proofs11 C15.Proofs12 C15.Proofs13 C15.Offsets C15.Proofs14.
 Open Scope Z_scope.
 
 (* Escaping is total and correct: every JSON value — arbitrary nesting, arbitrary integers,
@@ -573,6 +573,34 @@ Example c15_nonvacuous_basename :
   basename [67; 58; 92; 97; 47; 98; 92; 109; 46; 100] = [109; 46; 100] /\ basename [109] = [109] /\ basename [97; 47] = [] /\ basename [] = [].
 Proof. vm_compute. repeat split; reflexivity. Qed.
 
+(* MODULE OFFSETS AS A CHECKER.  [offsets_ok] judges a JSON value alone: every frame that names a module has a module_offset, and some element of
+   "modules" with that filename has base_addr <= offset and module_offset = offset - base_addr as NUMBERS (the hex strings are decoded, so the pointer
+   width plays no role); a frame without module has no module_offset.  The report of every well-formed state whose frame modules are members of the
+   module list ([frames_in_modules]: what module_at_address().cloned() in the stack walker yields; evaluated on every real state) passes it, in both
+   build profiles; the driver runs the same checker on the REAL print_json output of every case. *)
+Theorem c15_offsets_checker : forall p s, wf_state s = true -> frames_in_modules s = true ->
+  exists j, json_of_state p s = Ret j /\ offsets_ok j = true.
+Proof. intros p s H Hi. exists (report_obj s). split; [exact (report_pure p s H)|exact (report_offsets s H Hi)]. Qed.
+Print Assumptions c15_offsets_checker.
+
+Definition ex_mod (name : list Z) (base : Z) : json := JObj [(k_base_addr, jhex W64 base); (k_filename, JStr name)].
+Definition ex_ofr (m : json) (off : Z) (moff : json) : json := JObj [(k_module, m); (k_module_offset, moff); (k_offset, jhex W64 off)].
+Definition ex_odoc (ms fs : list json) : json := JObj [(k_modules, JArr ms); (k_threads, JArr [JObj [(k_frames, JArr fs)]])].
+(* [offsets_ok] is not vacuous: a wrong offset, an offset relative to another module's base, a module name that is not in the list, a base above
+   the instruction, a missing module_offset and a module_offset without module are rejected; equal names at different bases are told apart; the
+   32-bit and the 64-bit rendering of the same numbers are both accepted *)
+Theorem c15_offsets_rejects :
+  let ms := [ex_mod [97] 4096; ex_mod [98] 8192; ex_mod [97] 65536] in
+  offsets_ok (ex_odoc ms [ex_ofr (JStr [97]) 4100 (jhex W64 4); ex_ofr (JStr [97]) 65540 (jhex W32 4); ex_ofr JNull 5 JNull]) = true /\
+  offsets_ok (ex_odoc ms [ex_ofr (JStr [97]) 4100 (jhex W64 5)]) = false /\
+  offsets_ok (ex_odoc ms [ex_ofr (JStr [98]) 8200 (jhex W64 4104)]) = false /\
+  offsets_ok (ex_odoc ms [ex_ofr (JStr [99]) 4100 (jhex W64 4)]) = false /\
+  offsets_ok (ex_odoc [ex_mod [97] 4096] [ex_ofr (JStr [97]) 4000 (jhex W64 18446744073709551520)]) = false /\
+  offsets_ok (ex_odoc ms [ex_ofr (JStr [97]) 4100 JNull]) = false /\
+  offsets_ok (ex_odoc ms [ex_ofr JNull 4100 (jhex W64 4)]) = false.
+Proof. vm_compute. repeat split; reflexivity. Qed.
+Print Assumptions c15_offsets_rejects.
+
 (* ---- non-vacuity ---- *)
 Example c15_nonvacuous_roundtrip :
   let v := JObj [([97; 34; 92; 10; 1; 128512], JArr [JNum (-42); JNum 0; JNull; JBool true; JStr [31; 127; 8]; JObj []; JArr []])] in
@@ -620,11 +648,11 @@ Definition ex_state : state :=
      s_handles := Some [ {| h_handle := Some 18446744073709551615; h_type := Some [70]; h_object := None |} ];
      s_soft := Some (JArr [JObj [([97; 100; 100; 114; 101; 115; 115], JStr [63]); ([110], JArr [JNum (-1); JNull])]; JObj []]) |}.
 Example c15_nonvacuous_state : state_ok ex_state /\ wf_state ex_state = true /\ state_scalar ex_state = true /\ regs_named_ok (s_registers ex_state) = true /\
-  exists j, json_of_state Debug ex_state = Ret j /\ parse (serialise j) = Some j /\ conforms DOC_SCHEMA j = true /\ consistent j = true /\
+  exists j, json_of_state Debug ex_state = Ret j /\ parse (serialise j) = Some j /\ conforms DOC_SCHEMA j = true /\ consistent j = true /\ offsets_ok j = true /\ frames_in_modules ex_state = true /\
             jget k_thread_count j = Some (JNum 2) /\ (1400 < length (serialise j))%nat.
 Proof.
   assert (W : wf_state ex_state = true) by (vm_compute; reflexivity).
   split; [apply wf_state_ok; exact W|]. split; [exact W|]. split; [vm_compute; reflexivity|]. split; [reflexivity|].
-  eexists. split; [vm_compute; reflexivity|]. split; [apply serialise_parse|]. split; [vm_compute; reflexivity|]. split; [vm_compute; reflexivity|].
+  eexists. split; [vm_compute; reflexivity|]. split; [apply serialise_parse|]. split; [vm_compute; reflexivity|]. split; [vm_compute; reflexivity|]. split; [vm_compute; reflexivity|]. split; [vm_compute; reflexivity|].
   split; [reflexivity|vm_compute; lia].
 Qed.
